@@ -10,7 +10,7 @@
     exactly when the shared part is immutable (iff theorem, refutation witness, instance for the code under check
     via Generated/C04Sharing.v).  Go data races as such are outside the model; the concurrent-history run of both
     tiers and the -race run of the thorough tier are the empirical part. *)
-From ZV Require Import Lib.Base Model.DocCache Proofs.DocCache Proofs.DocCacheMemo Generated.C04Sharing.
+From ZV Require Import Lib.Base Model.DocCache Model.DocCacheBuild Proofs.DocCache Proofs.DocCacheMemo Proofs.DocCacheBuild Generated.C04Sharing.
 
 (** One search of the repaired code, started in ANY state reachable by searches (any cache contents that are
     coherent with the shard, any heap), returns exactly the documents satisfying the query, in document
@@ -84,6 +84,22 @@ Proof.
   rewrite Nat.sub_0_r. cbn [app]. apply (matches_reference s q t B2).
 Qed.
 Print Assumptions C04_search_under_interference_partial.
+
+(** (a'') finer still: the Meta case of newMatchTree at the granularity of its two cache operations
+    (Model/DocCacheBuild.v): the environment also acts between the cache MISS (Get, read lock) and the Add (write lock)
+    of one Meta atom — other searches may have added the same key meanwhile, evicted entries, allocated nodes. *)
+Theorem C04_search_under_interference_get_add_partial : forall envb envl cf s q st k t st' k',
+  build_split envb cf s (simp s q) st k = (t, st', k') ->
+  (forall i x, length (st_heap x) <= length (st_heap (envb i x))) ->
+  (forall i x, cache_ok s (st_cache x) -> cache_ok s (st_cache (envb i x))) ->
+  (forall a, In a (leaves t) -> forall i x, a < length (st_heap x) ->
+             get_cursor (st_heap (envb i x)) a = get_cursor (st_heap x) a) ->
+  (forall i h, (length h <= length (envl i h)) /\
+               (forall a, In a (leaves t) -> get_cursor (envl i h) a = get_cursor h a)) ->
+  cache_ok s (st_cache st) ->
+  fst (doc_loop_env envl (S (ndocs s)) (ndocs s) t 0 (st_heap st') []) = filter (qeval s q) (seq 0 (ndocs s)).
+Proof. exact search_split_correct. Qed.
+Print Assumptions C04_search_under_interference_get_add_partial.
 
 (** (b) the steps of a search satisfy what the others rely on: they keep the heap's length and only move the
     cursors of the search's own nodes — and the repaired newMatchTree gives every search its own nodes. *)
@@ -219,4 +235,18 @@ Example C04_nonvacuous_sharing :
   mpar_search SharePrivateMemo memo_wit alt = ([0; 1], [0; 1]) /\
   mpar_search ShareImmutable memo_wit alt = ([0; 1], [0; 1]) /\
   mpar_search ShareMutableMemo memo_wit alt = ([0; 1], [1]).
+Proof. vm_compute. repeat split. Qed.
+
+(** between the miss and the Add of the atom another search publishes the same key (with a foreign node) and moves
+    that node's cursor: the search still gets its own fresh node and the right answer *)
+Example C04_nonvacuous_get_add :
+  let envb := fun (i : nat) (x : state) =>
+                if Nat.eqb i 1
+                then {| st_heap := st_heap x ++ [(true, 2)];
+                        st_cache := cache_add wit_cf (st_step x) 1 (length (st_heap x), meta wit_shard 1) (st_cache x);
+                        st_step := S (st_step x) |}
+                else x in
+  let '(t, st', k') := build_split envb wit_cf wit_shard (simp wit_shard (QMeta 1)) fresh 0 in
+  leaves t = [1] /\ k' = 2 /\ length (st_cache st') = 1 /\
+  fst (doc_loop_env (fun _ h => h) 5 4 t 0 (st_heap st') []) = [0; 1; 2].
 Proof. vm_compute. repeat split. Qed.
